@@ -36,7 +36,7 @@ let parse_attr t = match t with
   | _ -> failwith "bad attribute line"
 
 let parse_desc path : file =
-  let gattrs = ref [] and objs = ref [] in
+  let gattrs = ref [] and objs = ref [] and nraster = ref 0 in
   let add_attr a = match !objs with
     | { o_name = nm; o_body = BSds (t, d, v, at) } :: r -> objs := { o_name = nm; o_body = BSds (t, d, v, at @ [a]) } :: r
     | _ -> failwith "A line without S" in
@@ -64,6 +64,16 @@ let parse_desc path : file =
                                 o_body = BVd (z_of_string nrec, fs, List.map z_of_string (fst (take (int_of_string n) vals))) } :: !objs
        | [] -> failwith "bad V")
     | "E" :: name :: _ -> objs := { o_name = chars_of_string name; o_body = BVg } :: !objs
+    | "D" :: _il :: xd :: yd :: n :: vals ->
+      objs := { o_name = chars_of_string (Printf.sprintf "Raster Image #%d" !nraster);
+                o_body = BGr (z_of_int 3, z_of_int 3, z_of_string xd, z_of_string yd,
+                              List.map z_of_string (fst (take (int_of_string n) vals))) } :: !objs;
+      incr nraster
+    | "B" :: xd :: yd :: n :: vals ->
+      objs := { o_name = chars_of_string (Printf.sprintf "Raster Image #%d" !nraster);
+                o_body = BGr (z_of_int 3, z_of_int 1, z_of_string xd, z_of_string yd,
+                              List.map z_of_string (fst (take (int_of_string n) vals))) } :: !objs;
+      incr nraster
     | [] -> ()
     | _ -> failwith ("bad line: " ^ line)) (read_lines path);
   { f_gattrs = !gattrs; f_objs = List.rev !objs }
@@ -88,11 +98,11 @@ let mode_hd path =
   List.iter (fun line -> match toks line with
     | [p1; p2] ->
       let f1 = list_order (parse_desc p1) and f2 = list_order (parse_desc p2) in
-      let tbl = String.concat " " (List.map (function
+      let tbl = String.concat "|" (List.map (function
           | Both (a, _) -> "xx:" ^ string_of_chars a.o_name
           | Only1 a -> "x-:" ^ string_of_chars a.o_name
           | Only2 a -> "-x:" ^ string_of_chars a.o_name) (cmatch f1.f_objs f2.f_objs)) in
-      let tags = String.concat " " (List.map2 (fun t o -> string_of_chars (fmt_dec t) ^ ":" ^ string_of_chars o.o_name)
+      let tags = String.concat "|" (List.map2 (fun t o -> string_of_chars (fmt_dec t) ^ ":" ^ string_of_chars o.o_name)
                                      (table_tags f1.f_objs) f1.f_objs) in
       Printf.printf "S %s ; M %s %s ; T %s ; W %s ; G %s\n" (zs [spec_exit f1 f2]) (zs [hdiff_tab_exit_m f1 f2]) (zs [hdiff_tab_m f1 f2]) tbl
         (zs [match_wanted f1.f_objs f2.f_objs]) tags
@@ -149,6 +159,16 @@ let mode_vdwalk path =
        | None -> print_string "M nofinish\n")
     | _ -> print_string "M badline\n") (read_lines path)
 
+(* lines "name,name|f f f|f f" (chosen field names, then the field names of each Vdata in file order)
+   -> "M i i|i" : the field indices hdp uses for each Vdata (fields_walk) *)
+let mode_vdsel path =
+  List.iter (fun line -> match String.split_on_char '|' line with
+    | chosen :: vds ->
+      let names s sep = List.map chars_of_string (List.filter (fun x -> x <> "") (String.split_on_char sep (String.trim s))) in
+      let res = fields_walk [] (List.map (fun v -> names v ' ') vds) (names chosen ',') in
+      print_string ("M " ^ String.concat "|" (List.map zs res) ^ "\n")
+    | _ -> print_string "M badline\n") (read_lines path)
+
 let () =
   match Sys.argv with
   | [| _; "ad"; p |] -> mode_ad p
@@ -157,4 +177,5 @@ let () =
   | [| _; "imp"; p |] -> mode_imp p
   | [| _; "pos"; p |] -> mode_pos p
   | [| _; "vdwalk"; p |] -> mode_vdwalk p
+  | [| _; "vdsel"; p |] -> mode_vdsel p
   | _ -> prerr_endline "usage: tools_model ad|hd|dump|imp|pos <file>"; exit 2
